@@ -353,35 +353,57 @@ where
 
 def printR : RExp → String := printRF []
 
+partial def hasFork : RExp → Bool
+  | .lit _ => false
+  | .arr xs => xs.any hasFork
+  | .map kvs => kvs.any fun kv => hasFork kv.2
+  | .struct kvs => kvs.any fun kv => hasFork kv.2
+  | .ref _ _ _ => false
+  | .split _ _ e => hasFork e
+  | .merge _ _ e => hasFork e
+  | .disabled d v => hasFork d || hasFork v
+  | .fork _ _ _ => true
+
 def fqid (path : List String) : String := ".".intercalate path
 
 def printStatic (s : RB × List SNode) : String :=
   "(cg" ++ String.join (s.2.map fun n =>
-    " (node " ++ fqid n.path ++ String.join (n.inputs.map fun kv =>
+    " (node " ++ fqid n.path ++ " (forks" ++ String.join (n.forks.map fun d => " " ++ d.1) ++ ")" ++
+      String.join (n.inputs.map fun kv =>
       s!" (in {kv.1} {kv.2.ty.base} {kv.2.ty.mapDim} {kv.2.ty.arrDim} " ++ printR kv.2.exp ++ ")") ++ ")") ++
   " (out " ++ printR s.1.exp ++ "))"
 
-def storeOfObs (outs : List (InstKey × J)) : Store :=
-  { outs := fun node _ => ((outs.find? fun o => fqid o.1.path == node).map (·.2)).getD .null
+/-- the store a run leaves behind: the recorded outs of the fork of `node` that the fork
+assignment selects (the node's own fork dimensions only) -/
+def storeOfObs (nodes : List SNode) (outs : List (InstKey × J)) : Store :=
+  { outs := fun node f =>
+      match nodes.find? (fun n => fqid n.path == node) with
+      | some n => (oracleOf outs ⟨n.path, n.forks.map fun d => (d.1, (f.lookup d.1).getD .none)⟩).getD .null
+      | none => .null
     idx := fun _ _ => [] }
 
 def staticReply (P : Program) (obs : Option Obs) : String :=
-  if !Program.plain P then "skip not-plain" else
+  if !Program.mapsOfStages P then "skip not-plain" else
   let s := staticProgram P fqid
-  let frag := wellTypedB P && acyclicB P.table
+  if s.2.any (fun n => n.forks.any fun d => d.2.isEmpty) then "skip map-source-not-static" else
+  if s.2.any (fun n => !n.forks.isEmpty && n.inputs.any fun kv =>
+      match kv.2.exp with
+      | .split _ _ e => hasFork e
+      | _ => false) then "skip map-source-depends-on-map-call" else
+  let frag := Program.plain P && wellTypedB P && acyclicB P.table
   let (denV, rtV) :=
     match obs with
     | none => ("na", "na")
     | some obs =>
-      let ρ := storeOfObs obs.outs
-      let O : Oracle := fun k => (obs.outs.find? fun o => o.1.path == k.path).map (·.2)
+      let ρ := storeOfObs s.2 obs.outs
+      let O : Oracle := oracleOf obs.outs
       let d := den P O
-      let t := twoPhase P fqid ρ
+      let t := twoPhaseM P fqid ρ
       let same := render d.1 == render t.1 && d.2.length == t.2.length &&
         (d.2.zip t.2).all fun p => renderKey p.1.key == renderKey p.2.key && render p.1.args == render p.2.args
       let jobDiff := obs.jobs.findSome? fun j =>
         if j.chunk then none else
-        match t.2.find? (fun i => i.key.path == j.inst.path) with
+        match t.2.find? (fun i => covers j.inst i.key) with
         | none => some (mkDiff "rt-unexpected-node" j.key (renderKey j.inst) .dnull j.args)
         | some i => diffRecord "rt-args" j.key (fieldsOf i.args) (fieldsOf j.args)
       let topDiff := diffRecord "rt-top-outs" P.top.id
